@@ -306,6 +306,9 @@ def run(ctx):
     ctx.record_all(res)
     ctx.extra["exhaustive_part"] = {"nodes": nmax, "depth": depth, "sequences": ctx.evaluations - before,
                                     "complete": not any(r.get("verdict") == "inconclusive" for r in res)}
+    if not quick:
+        from vp import suite
+        ctx.record(suite.run_suite(ctx, ["pydra/engine/tests/test_graph.py", "pydra/compose/tests/test_workflow_run.py"], "graph"))
     ctx.assumptions = ["node removal only of predecessor-free nodes, as DiGraph.remove_nodes requires",
                        "no duplicate edges, no cycles (C18 covers cycles)"]
 
